@@ -1,4 +1,5 @@
 import Tibc.Props.C18
+import Tibc.Expect.Eth
 #print axioms Tibc.C18.eth_accepts_iff
 #print axioms Tibc.C18.eth_known_header_refused
 #print axioms Tibc.C18.eth_unknown_parent_refused
